@@ -35,7 +35,7 @@ ASSUMPTIONS = [
     "file names are encoded as UTF-8 (the library's documented str API); the second file name LV is present exactly for RENAME, APPEND, REPLACE",
     "status-code alphabet = the codes the library's FilestoreResponseStatusCode enum defines for the action; the enum's completeness with respect to table 5-18 is reported in the coverage, not judged",
     "a type-mismatch error is TlvTypeMissmatch; TlvHolder conversions may also raise TypeError (DESIGN.md 5.6); an undefined type octet may be refused with any documented error",
-    "values of length 3..255 are covered by 5 shaped contents per length, not exhaustively",
+    "values of length 3..255 are covered by 5 shaped contents per length (thorough: every 3-octet value through CfdpTlv type 5 and CfdpLv), not exhaustively",
 ]
 
 SUFFIX = b"\xa5\x01\x00"
@@ -156,6 +156,10 @@ def shards(tier):
     items.append({"kind": "corpus", "tier": tier})
     for t in R.DEFINED_TYPES:
         items.append({"kind": "tlvhist", "t": t, "depth": 3 if tier == "quick" else 4})
+    if tier != "quick":  # every 3-octet value through the generic TLV (one type: the value is opaque to it) and the LV
+        for a in range(0, 256, 8):
+            items.append({"kind": "tlv3", "lo": a, "hi": a + 8})
+            items.append({"kind": "lv3", "lo": a, "hi": a + 8})
     return items
 
 
@@ -553,6 +557,19 @@ def run_shard(item):
     kind = item["kind"]
     if kind == "tlvhist":
         run_tlvhist(rec, item)
+        return rec.result()
+    if kind in ("tlv3", "lv3"):
+        n = 0
+        for a in range(item["lo"], item["hi"]):
+            for b in range(256):
+                for c in range(256):
+                    v = bytes([a, b, c])
+                    if kind == "tlv3":
+                        check_generic_tlv(rec, 5, v)
+                    else:
+                        check_generic_lv(rec, v)
+                    n += 1
+        rec.count("three_octet_values_" + kind[:-1], n)
         return rec.result()
     if kind == "tlv":
         n = 0
